@@ -1,5 +1,6 @@
 import DefraModel.Index.Maint
 import DefraModel.Query.Model
+import DefraModel.Query.Group
 import DefraModel.Encoding.FieldValue
 open Defra Defra.Query
 
@@ -85,6 +86,14 @@ def parseSel (s : String) : Option Sel :=
   | ["min", f] => some (.min f)
   | ["max", f] => some (.max f)
   | _ => none
+
+/-- a value in the token syntax of the operation lines -/
+def showV : V → String
+  | .null => "n"
+  | .bool b => if b then "b1" else "b0"
+  | .int i => s!"i{i}"
+  | .flt n => s!"f{n}"
+  | .str s => "s" ++ Bytes.render s
 
 def hexDigits (n : Nat) : String :=
   let rec go (fuel n : Nat) (acc : List Char) : List Char :=
@@ -190,6 +199,13 @@ def step (st : St) (toks : List String) : St × String :=
         s!"{key}:{r.2.1}:{r.2.2.1}:{r.2.2.2.1}:{r.2.2.2.2.1}:{r.2.2.2.2.2}")
       (st, ",".intercalate (sortStr rows))
     | _, _ => (st, "bad-op")
+  | ["qg", filt, fields] =>
+    match parseF 12 filt with
+    | some f =>
+      let rows := (groupCounts (fields.splitOn ",") (st.docs.filter f.matches)).map (fun p =>
+        "|".intercalate (p.1.map showV) ++ "=" ++ toString p.2)
+      (st, if rows.isEmpty then "-" else ",".intercalate (sortStr rows))
+    | none => (st, "bad-op")
   | ["q", filt, order, limit, offset, sel] =>
     match parseF 12 filt, limit.toNat?, offset.toNat?, parseSel sel with
     | some f, some l, some o, some s =>
